@@ -95,6 +95,59 @@ CLAIMED = {
              'selects); tolerance 1e-10*max|entry| (fast assemblers 3e-10); positive definiteness numerically; nothing is compiled.',
         technique='TLA+ exact rational reference of the Galerkin integrals enumerated and cross-checked by TLC + replay of every case through all assembling routes',
         design_ref='3 C09'),
+    'C03': dict(
+        text='spec/HAssemble.tla (EXTENDS HRepr, INSTANCE Galerkin1D) gives for every TLC-enumerated reachable HSpace state the exact '
+             'HB/THB representation matrices and the exact 1-D Galerkin matrices of every level; the expected hierarchical matrix '
+             'Repr^T A_fine Repr is formed from these rational pieces and compared entrywise (1e-10) with the real '
+             'assemble(problem, hspace), HDiscretization.assemble_matrix/assemble_rhs for mass, stiffness, d_x u v (nonsymmetric), '
+             'a coefficient field and a load functional, HB and THB, symmetric=True/False, bdspecs None/[]/faces; the on-demand '
+             'assemblers are really compiled.',
+        note='Identity geometry on the integer-grid domain; integrands polynomial within the exactness of the quadrature (the '
+             'clause about non-polynomial integrands / curved geometry is not decided); 1-D and 2-D, degrees <= 3, <= 4 levels.',
+        technique='TLA+ exact rational reference (HAssemble.tla over HRepr/Galerkin1D) for TLC-enumerated refinement histories + entrywise comparison with the real hierarchical assembly',
+        design_ref='3 C03'),
+    'C10': dict(
+        text='spec/Dirichlet.tla enumerates every injective index sequence (n <= 5, all orders, empty..all dofs) x value/rhs/elim_rows/'
+             'format modes and TLC checks the elimination property (prescribed values, non-eliminated rows, mutual consistency) on '
+             'an exact rational reference and on a code-shaped model (pre-fix R_elim as negative control); every case is replayed on '
+             'the real RestrictedLinearSystem. DirichletBC.tla / DirichletMP.tla enumerate faces, flips, names, blocked numbering, '
+             'combine_bcs, initial conditions and multipatch conditions (via Multipatch.tla) on 1-3-D spaces with boundary data in '
+             'the trace space.',
+        note='Affine geometries only; one matrix family per n; quick tier subsamples elim_rows orders for n = 5. Trusted base: TLC/'
+             'Rat.tla, the harness Cox-de Boor evaluation defining boundary data, numpy.linalg.solve, Multipatch.tla closure.',
+        technique='TLA+ exact reference + code-shaped model enumerated by TLC (all index orders) + replay of every case on the real code',
+        design_ref='3 C10'),
+    'C19': dict(
+        text='spec/KnotVec.tla: PlusCal transcription of pyx_findspan checked against the declarative span (LoopInv, FindSpanOK, '
+             'Termination; buggy comparison as negative control) on all small open knot vectors; queries/refine/eq/derivative '
+             'consistency on the reference; the make_knots contract (run-length-encoded multiplicity profile, numdofs, span of '
+             'breakpoint) swept for p <= 6, mult <= max(p,1), n <= 2000 over 12 rational/decimal intervals plus random float '
+             'intervals; every case replayed exactly on the real KnotVector/make_knots/findspan/Spline.derivative.',
+        note='Harness abstraction of the float knot array: np.unique -> profile, end points bitwise, breakpoints within 4*n*ulp; '
+             'queries on the quarter-integer grid (p <= 3, 4 thorough); quick tier uses 59 values of n.',
+        technique='PlusCal/TLA+ model of span search + declarative knot-vector contract enumerated by TLC, every case replayed on the real code',
+        design_ref='3 C19'),
+    'C12': dict(
+        text='spec/TimeStep.tla transcribes the adaptive controller, the constant-step driver and Newton as state machines with an '
+             'adversarial error-ratio alphabet (TLC: TimesIncrease, AcceptIffRatioLeOne, RatioBounds, EndReached, NewtonPost; '
+             'liveness under r = C tau^2); spec/RKStage.tla solves the stage equations of rational DIRK/Rosenbrock tableaux exactly; '
+             'spec/Tableau.tla + DecLimb.tla evaluate the order conditions (<= order 4) of all 12 shipped tableaux in exact decimal '
+             'arithmetic from the real coefficients. Every behaviour/case is replayed on the real code (scripted stepper / F / J).',
+        note='Controller replay with scripted stepper (x=0, tol=2^-10), q in {1,2}; stage equations on linear problems n <= 2; '
+             'nonlinear problems only within dirk_step\'s Newton tolerance; documented-order table trusted. Known finding: dirk34.',
+        technique='TLA+/TLC state machines of controller, Newton and exact stage equations + exact decimal order conditions; replay on the real code',
+        design_ref='3 C12'),
+    'C11': dict(
+        text='spec/Relax.tla: textbook Gauss-Seidel in rationals with two code shapes (TLC: CodeShapesAgree, FixedPoint, per-update '
+             'SPD EnergyMonotone), replayed exactly in 7 storage formats; spec/IterDrivers.tla: stopping rules of iterative_solve '
+             '(incl. zero initial residual) and twogrid with scripted residuals (ConvergedMeansReduced, NoEarlierStop, LimitReported); '
+             'spec/HMarks.tla enumerates 1-D mark histories from which real hierarchical spaces are built for the smoothing-set, '
+             'local_mg_step fixed-point/energy and solve_hmultigrid clauses.',
+        note='GS on n <= 4 dyadic families; the hierarchical clauses are numeric predicates (1e-9) on spec-generated spaces '
+             '(n0=4, <= 3 levels, p <= 3, 1-D and tensorised 2-D) with the Galerkin operator R^T(K+M)R from shipped assemblers; '
+             'twogrid\'s maxiter+1 limit convention recorded, not judged.',
+        technique='TLA+/TLC models of Gauss-Seidel and the iterative drivers + replay with scripted callbacks; numeric predicates on TLC-generated hierarchical spaces',
+        design_ref='3 C11'),
 }
 
 NOT_BUILT = 'specification module not built yet (see DESIGN.md section 6); not claimed with a weaker technique'
